@@ -544,6 +544,7 @@ def run(ctx):
                        'when a write through such a view shows through)']
     if ctx.ensure_library():
         ctx.prove(['theories/Props/C08.v'])
+        ctx.effects_obligations()      # regenerated from the current source: see coq/obl/Eff_C08.v
     # ---- oracle histories
     nh = 1500 if ctx.tier == 'quick' else 15000
     # exhaustive core: every maker, frozen, every way of deriving an object from it, then every mutator and every direct
